@@ -249,3 +249,40 @@ Proof.
   rewrite <- E. nra.
 Qed.
 End Duplicates.
+
+(* ---- the cond_err guard: an ACCEPTED exact setup carries the model nugget at every point, so with the covariance
+   block of a model (C_mm = var) and sill = var + nugget the "no measurement error" premise C_mm + err_m = sill of
+   exact_at_data holds by construction: every accepted exact object reproduces its data with zero variance *)
+Lemma accepted_exact_err exact n (nugget : R) ce e m :
+  set_cond_err Rops exact n nugget ce = Some e -> exact = true -> (m < n)%nat -> aget 0 e m = nugget /\ ce = None.
+Proof.
+  unfold set_cond_err. destruct ce as [[sc v]|]; intros H He Hm.
+  - subst exact. discriminate.
+  - inversion H. split; [|reflexivity]. unfold aget.
+    rewrite nth_indep with (d' := nugget) by (rewrite repeat_length; lia). apply nth_repeat.
+Qed.
+
+Theorem exact_accepted S Q Kinv nr dn val ctrend cmean tmean ttrend chunk t m (var nugget : R) ce :
+  set_cond_err Rops (ks_exact S) (ks_n S) nugget ce = Some (ks_err S) -> ks_exact S = true ->
+  aget2 0 (ks_C S) m m = var -> ks_sill S = var + nugget ->
+  shape0 Kinv = ks_size S -> (1 <= chunk)%nat -> (t < kt_m Q)%nat ->
+  meq (ks_size S) (mmul (ks_size S) (mat_of Kinv) (kmat_entry Rops S)) delta ->
+  (* target t sits on conditioning point m: geometry only *)
+  (m < ks_n S)%nat -> kt_only_mean Q = false ->
+  (forall i, (i < ks_n S)%nat -> aget2 0 (kt_c0 Q) i t = aget2 0 (ks_C S) i m) ->
+  (forall l, (l < ks_p S)%nat -> aget2 0 (kt_drifts Q) l t = aget2 0 (ks_drifts S) l m) ->
+  Rabs (aget2 0 (kt_d0 Q) m t) <= 1 / 100000000 ->
+  (forall i, (i < ks_n S)%nat -> i <> m -> 1 / 100000000 < Rabs (aget2 0 (kt_d0 Q) i t)) ->
+  length val = ks_n S ->
+  aget 0 tmean t = aget 0 cmean m -> aget 0 ttrend t = aget 0 ctrend m ->
+  dn (nr (aget 0 val m - aget 0 ctrend m)) = aget 0 val m - aget 0 ctrend m ->
+  let r := krige_call Rops S Q Kinv nr dn val ctrend cmean tmean ttrend chunk in
+  aget 0 (fst r) t = aget 0 val m /\ aget 0 (snd r) t = 0.
+Proof.
+  intros Hacc Hex HC Hs HN Hc Ht HL Hm Hom Hc0 Hdr Hd0 Hsep Hl Hmean Htrend Hdn.
+  destruct (accepted_exact_err _ _ _ _ _ m Hacc Hex Hm) as [Herr _].
+  assert (Hz : aget2 0 (ks_C S) m m + aget 0 (ks_err S) m = ks_sill S) by (rewrite HC, Herr, Hs; reflexivity).
+  apply exact_at_data; auto.
+  unfold at_data_point. repeat split; auto.
+  intros Hne. rewrite Hex in Hne. discriminate.
+Qed.
